@@ -2216,7 +2216,10 @@ def _validate_reindex(
         return func in ["first", "last"] or (_is_first_last_reduction(func) and array_dtype.kind != "f")
 
     all_eager = not is_dask_array and not any_by_dask
-    if reindex is True and not all_eager:
+    # also catches an explicit reindex=True that was already wrapped in a ReindexStrategy
+    # by the first validation, once the method has been chosen automatically
+    reindex_is_true = reindex is True or (isinstance(reindex, ReindexStrategy) and reindex.blockwise is True)
+    if reindex_is_true and method is not None and not all_eager:
         if _is_arg_reduction(func):
             raise NotImplementedError
         if method == "cohorts" or (method == "blockwise" and not any_by_dask):
